@@ -103,7 +103,7 @@ pub fn run(ctx: &mut Ctx) -> Result<RunOut, Violation> {
     let fresh: Vec<bool> = (0..48).map(|_| t.chance(1, 3)).collect();
     let spurious_at: Vec<bool> = (0..48).map(|_| t.chance(1, 6)).collect();
     let spurious_budget = t.draw(3) as u64;
-    let overpoll = t.draw(3);
+    let overpoll = if focus == "C20" { 1 + t.draw(4) } else { t.draw(3) };
     let body_drop_at: Option<u32> = if focus == "C11" && t.chance(1, 2) { Some(t.draw(6)) } else { None };
     let trace = ctx.tracing();
 
@@ -430,6 +430,9 @@ pub fn run(ctx: &mut Ctx) -> Result<RunOut, Violation> {
 
     // Panics in either thread.
     if let Some(pn) = st.panics.first() {
+        if focus == "C20" && c.log.terminal.is_none() {
+            return Ok(RunOut { sig, nontrivial: false }); // not after a termination: C10/C11's business
+        }
         let d = describe(&st);
         return violation(focus_static(focus), "panic", format!("{pn}; {d}"));
     }
@@ -525,6 +528,21 @@ pub fn run(ctx: &mut Ctx) -> Result<RunOut, Violation> {
             }
             Ok(RunOut { sig, nontrivial: p.aborted_done_seq.is_some() || c.body_dropped_seq.is_some() })
         }
+        "C20" => {
+            let Some(term) = c.log.terminal else { return Ok(RunOut { sig, nontrivial: false }) };
+            for (k, (_, s)) in c.log.steps.iter().enumerate().skip(term + 1) {
+                if let Step::Data(n) = s {
+                    if *n > 0 {
+                        return violation("C20", "data-after-termination", format!("poll #{} after the terminal event returned {n} bytes; {}", k - term, describe(&st)));
+                    }
+                }
+            }
+            let extra = c.log.steps.len() - term - 1;
+            let kind = match &c.log.steps[term].1 { Step::End => "clean-end", _ => "abort" };
+            ctx.stats.grid.insert(format!("streaming-threads|{kind}|extra={}", extra.min(4)));
+            ctx.stats.add("c20_extra_polls", extra as u64);
+            Ok(RunOut { sig: mix(sig, extra as u64), nontrivial: extra > 0 })
+        }
         "C12" => {
             check_hints("C12", &c.log, clean, false)?;
             ctx.stats.add("c12_samples_checked", c.log.steps.len() as u64);
@@ -542,6 +560,7 @@ fn focus_static(f: &str) -> &'static str {
     match f {
         "C10" => "C10",
         "C11" => "C11",
+        "C20" => "C20",
         _ => "C12",
     }
 }
